@@ -34,10 +34,10 @@ from holopy.core.io.io import Accumulator
 META = dict(medium_index=1.33, illum_wavelen=0.66, illum_polarization=(1, 0), noise_sd=0.05)
 
 
-def mk(arr, spacing=(0.1, 0.25), name="img", **kw):
+def mk(arr, spacing=(0.1, 0.25), name="img", dtype=float, **kw):
     m = dict(META)
     m.update(kw)
-    return data_grid(np.asarray(arr, dtype=float), spacing=spacing, name=name, **m)
+    return data_grid(np.asarray(arr, dtype=dtype), spacing=spacing, name=name, **m)
 
 
 def img_from_spec(f, nx, ny):
@@ -144,11 +144,13 @@ def run(ctx):
         zstates = list(g.states.values())
         if nsample is not None and len(zstates) > nsample:
             zstates = rng.sample(zstates, nsample)   # quick tier: seeded sample of the dump
-        for st in zstates:
+        for nz_, st in enumerate(zstates):
             a = img_from_spec(st["img"], *zshape)
-            im = mk(a)
+            # raw camera frames are integers: every third image is replayed as uint8 / int64 data
+            dt_ = [float, np.uint8, float, float, np.int64, float][nz_ % 6]
+            im = mk(a, dtype=dt_)
             before = im.copy(deep=True)
-            ctx.case(("zero", zshape, a.tobytes()), nontrivial=(a == 0).any())
+            ctx.case(("zero", zshape, a.tobytes(), np.dtype(dt_).name), nontrivial=(a == 0).any())
             try:
                 res = zero_filter(im)
                 outcome = "accept"
